@@ -134,6 +134,10 @@ type bufPlan struct {
 	stage   string // "": overwrite after the last call only | "P1": also right after the constructor | "P2": also after the last AddSigner / AddRecipient, before Finish
 	builder bool   // Encrypt family: NewEnvelopedData / AddRecipient / Finish instead of the one-shot function
 	session bool   // builder: New*EnvelopedDataWithSession with a caller-provided Session; readers then use ParseWithSession
+	// a second message of the same description from the same signers / recipients (certificates, keys) with another
+	// content of the same length: the end entities of this earlier message are used instead of new ones
+	likeSigned *built
+	likeEnv    *builtEnv
 }
 
 // tallySession is a caller-provided Session: the default behaviour, call counts, and a data key that lives in a
@@ -221,6 +225,13 @@ func buildEnvPlan(c *mon.Case, w *world, s envSpec, plan *bufPlan) (*builtEnv, e
 	}
 	var certs []*smx509.Certificate
 	for i, k := range s.rcpt {
+		if plan != nil && plan.likeEnv != nil {
+			b.rcpts = plan.likeEnv.rcpts
+			for _, e := range b.rcpts {
+				certs = append(certs, e.cert)
+			}
+			break
+		}
 		o := eeOpt{ski: s.bySKI() || c.R.Intn(3) == 0}
 		if s.bySKI() && c.R.Intn(2) == 0 {
 			o.ski1 = true // the key identifier RFC 5280 4.2.1.2 (1) derives from the key: a certificate without the extension names the same recipient
@@ -327,7 +338,11 @@ func buildEnvPlan(c *mon.Case, w *world, s envSpec, plan *bufPlan) (*builtEnv, e
 				b.der, err = pkcs7.EncryptSMUsingPSK(ci.c, hc.s, hk.s)
 			}
 		case s.isSignEnv():
-			b.signer, err = w.newEE(c.R, s.signer.kind, s.signer.iss, eeOpt{})
+			if plan != nil && plan.likeEnv != nil {
+				b.signer = plan.likeEnv.signer
+			} else {
+				b.signer, err = w.newEE(c.R, s.signer.kind, s.signer.iss, eeOpt{})
+			}
 			if err != nil {
 				return
 			}
@@ -408,9 +423,9 @@ func (b *builtEnv) open(msg []byte, cert *smx509.Certificate, key crypto.Private
 		return
 	}
 	if b.sess != nil {
-		p, err = pkcs7.ParseWithSession(b.sess, msg)
+		p, err = parseRxSession(b.sess, msg)
 	} else {
-		p, err = pkcs7.Parse(msg)
+		p, err = parseRx(msg)
 	}
 	if err != nil {
 		return nil, nil, err
@@ -444,7 +459,7 @@ func (b *builtEnv) openParsed(p *pkcs7.PKCS7, cert *smx509.Certificate, key cryp
 }
 
 func (b *builtEnv) openPSK(msg, key []byte) (pt []byte, err error) {
-	p, err := pkcs7.Parse(msg)
+	p, err := parseRx(msg)
 	if err != nil {
 		return nil, err
 	}
@@ -466,11 +481,17 @@ func roundTripEnv(c *mon.Case, b *builtEnv) bool {
 		c.Event("roundtrip/psk", 1)
 		if err != nil {
 			c.Detail("message", b.der)
-			c.Fail("reject", "EncryptedData does not decrypt with its pre-shared key: %v; %v", err, s)
+			c.Fail("reject", "EncryptedData does not decrypt with its pre-shared key: %v%s; %v", err, rxBlame(func() error { _, e := b.openPSK(b.der, b.psk); return e }), s)
 			return false
 		}
 		if !bytes.Equal(pt, b.content) {
-			c.Fail("mismatch", "EncryptedData decrypts to %x, want %x; %v", pt, b.content, s)
+			c.Fail("mismatch", "EncryptedData decrypts to %x, want %x%s; %v", pt, b.content, rxBlame(func() error {
+				pt, e := b.openPSK(b.der, b.psk)
+				if e == nil && !bytes.Equal(pt, b.content) {
+					e = fmt.Errorf("other plaintext")
+				}
+				return e
+			}), s)
 			good = false
 		}
 		// other keys
@@ -509,7 +530,7 @@ func roundTripEnv(c *mon.Case, b *builtEnv) bool {
 		}
 		// the recipient entry points on EncryptedData: there is no recipient, so nobody opens it that way
 		if x, err := b.w.newEE(c.R, kSM2, iSelf, eeOpt{ski: true}); err == nil {
-			if p, err := pkcs7.Parse(b.der); err == nil {
+			if p, err := parseRx(b.der); err == nil {
 				for _, how := range []string{"Decrypt", "DecryptCFCA", "DecryptAndVerify", "GetRecipients"} {
 					var pt []byte
 					var derr error
@@ -550,12 +571,18 @@ func roundTripEnv(c *mon.Case, b *builtEnv) bool {
 		c.Event("roundtrip/recipient_opens", 1)
 		if err != nil {
 			c.Detail("message", b.der)
-			c.Fail("reject", "recipient %d (%v) cannot open the message: %v; %v", i, e, err, s)
+			c.Fail("reject", "recipient %d (%v) cannot open the message: %v%s; %v", i, e, err, rxBlame(func() error { _, _, e2 := b.open(b.der, e.cert, e.decryptKey(), false); return e2 }), s)
 			good = false
 			continue
 		}
 		if !bytes.Equal(pt, b.content) {
-			c.Fail("mismatch", "recipient %d gets %x, want %x; %v", i, pt, b.content, s)
+			c.Fail("mismatch", "recipient %d gets %x, want %x%s; %v", i, pt, b.content, rxBlame(func() error {
+				pt, _, e2 := b.open(b.der, e.cert, e.decryptKey(), false)
+				if e2 == nil && !bytes.Equal(pt, b.content) {
+					e2 = fmt.Errorf("other plaintext")
+				}
+				return e2
+			}), s)
 			good = false
 		}
 	}
@@ -584,7 +611,7 @@ func roundTripEnv(c *mon.Case, b *builtEnv) bool {
 		}
 	}
 	// the recipient list the parser reports names exactly the intended recipients
-	if p, err := pkcs7.Parse(b.der); err == nil {
+	if p, err := parseRx(b.der); err == nil {
 		var ris []pkcs7.RecipientInfo
 		if c.Call("GetRecipients", func() { ris, err = p.GetRecipients() }) {
 			if err != nil || len(ris) != len(b.rcpts) {
@@ -697,7 +724,7 @@ func roundTripEnv(c *mon.Case, b *builtEnv) bool {
 		}
 	}
 	// the entry point for pre-shared keys on a message that has recipients: no key is "the" key
-	if p, err := pkcs7.Parse(b.der); err == nil {
+	if p, err := parseRx(b.der); err == nil {
 		var pt []byte
 		var derr error
 		pi := mon.Try(func() { pt, derr = p.DecryptUsingPSK(c.R.Bytes(ci.c.KeySize())) })
